@@ -259,10 +259,19 @@ impl Profile {
 
 pub struct Names { pub opaques: Vec<String>, pub structs: Vec<String>, pub outstructs: Vec<String>, pub enums: Vec<String>, pub zsts: Vec<String> }
 
-pub struct Gen<'a> { pub rng: &'a mut Rng, pub prof: Profile, pub names: Names }
+/// shapes to stay away from (used to look *behind* known findings)
+#[derive(Clone, Copy, Debug, Default)]
+pub struct Avoid { pub noncustom_result_err: bool, pub byte_slices: bool, pub callbacks_on_methods_with_self: bool }
+
+pub struct Gen<'a> { pub rng: &'a mut Rng, pub prof: Profile, pub names: Names, pub avoid: Avoid }
 
 impl<'a> Gen<'a> {
-    fn prim(&mut self) -> Prim { *self.rng.pick(&PRIMS_NO128) }
+    fn prim(&mut self) -> Prim {
+        loop {
+            let p = *self.rng.pick(&PRIMS_NO128);
+            if !(self.avoid.byte_slices && p == Prim::Byte) { return p; }
+        }
+    }
     fn enc(&mut self) -> Enc { *self.rng.pick(&[Enc::Utf8, Enc::UUtf8, Enc::UUtf16]) }
     fn sd(&mut self) -> Sd { if self.rng.chance(1, 2) { Sd::Std } else { Sd::Dip } }
     fn opaque(&mut self) -> Ty { Ty::Named(self.rng.pick(&self.names.opaques.clone()).clone()) }
@@ -283,7 +292,7 @@ impl<'a> Gen<'a> {
                 10 => { let lt = self.in_lt(); let m = self.rng.chance(1, 4); let p = self.prim(); let sd = self.sd(); return Ty::PSlice(Some((lt, m)), p, sd) }
                 11 => { let e = self.enc(); let sd = self.sd(); return if self.rng.chance(1, 2) { Ty::Str(None, e, sd) } else { Ty::PSlice(None, self.prim(), sd) } }
                 12 => { let e = self.enc(); let sd = self.sd(); return Ty::Strs(e, sd) }
-                13 if depth > 0 => {
+                13 if depth > 0 && self.prof.option => {
                     let lt = self.in_lt(); let e = self.enc(); let sd = self.sd(); let osd = self.sd();
                     return Ty::Opt(Box::new(if self.rng.chance(1, 2) { Ty::Str(Some(lt), e, sd) } else { Ty::PSlice(Some((lt, false)), self.prim(), sd) }), osd)
                 }
@@ -325,7 +334,12 @@ impl<'a> Gen<'a> {
             1 => Some(Ty::Unit),
             2 | 3 => {
                 let ok = if self.rng.chance(1, 4) { Ty::Unit } else { self.valid_out(true) };
-                let err = if self.rng.chance(1, 3) { Ty::Unit } else { self.valid_out(true) };
+                let err = if self.rng.chance(1, 3) { Ty::Unit } else {
+                    loop {
+                        let e = self.valid_out(true);
+                        if !(self.avoid.noncustom_result_err && matches!(e, Ty::Prim(_) | Ty::Str(..) | Ty::PSlice(..))) { break e; }
+                    }
+                };
                 let sd = self.sd();
                 Some(Ty::Res(Box::new(ok), Box::new(err), sd))
             }
@@ -376,6 +390,11 @@ impl<'a> Gen<'a> {
         };
         let np = self.rng.below(4);
         let mut params: Vec<(String, Ty)> = (0..np).map(|i| (format!("p{i}"), self.valid_param(1))).collect();
+        if self.avoid.callbacks_on_methods_with_self && self_param.is_some() {
+            for p in params.iter_mut() {
+                if matches!(p.1, Ty::Fn(..)) { p.1 = Ty::Prim(Prim::U8); }
+            }
+        }
         let mut ret = self.valid_ret();
         let takes_write = self.rng.chance(1, 6) && matches!(ret, None | Some(Ty::Unit) | Some(Ty::Res(..)));
         if takes_write {
@@ -400,6 +419,10 @@ impl<'a> Gen<'a> {
     }
 
     pub fn valid_module(rng: &'a mut Rng, prof: Profile) -> Module {
+        Self::valid_module_avoiding(rng, prof, Avoid::default())
+    }
+
+    pub fn valid_module_avoiding(rng: &'a mut Rng, prof: Profile, avoid: Avoid) -> Module {
         let n_op = 1 + rng.below(2);
         let n_st = rng.below(3);
         let n_out = rng.below(2);
@@ -412,7 +435,7 @@ impl<'a> Gen<'a> {
             enums: (0..n_en).map(|i| format!("En{}", crate::util::letters(i))).collect(),
             zsts: if has_zst { vec!["Zs".into()] } else { vec![] },
         };
-        let mut g = Gen { rng, prof, names };
+        let mut g = Gen { rng, prof, names, avoid };
         let mut types = vec![];
         for e in g.names.enums.clone() {
             let def = Def::Enum { variants: vec!["Va".into(), "Vb".into()] };
